@@ -367,7 +367,7 @@ macro_rules! impl_kumaraswamy {
 
         impl Sampleable<$kind> for Kumaraswamy {
             fn draw<R: Rng>(&self, rng: &mut R) -> $kind {
-                let p: f64 = rng.gen();
+                let p: f64 = rng.sample(rand_distr::Open01);
                 invcdf(p, self.a, self.b) as $kind
             }
         }
